@@ -11,6 +11,7 @@ CONSTANTS
  MaxDevStop = 0
  MaxFail = 0
  MaxSteps = 60
+ LiveMC = FALSE
  MaxNoop = 4
  OutOfOrderRb = TRUE
 INIT MCInit
